@@ -28,7 +28,7 @@ def run(ctx):
     for k in range(8 if q else 16):   # "loose": arbitrary random polygons (no input certificate, crossings a fraction of a unit apart); the harness keeps only the
         # inputs for which some tree execution splits a self-intersecting output ring (hook H4 split_fn as a search director: about 1 input in 10);
         # only the tree's own consistency is judged, and only when TLC finds the output rings simple and apart
-        add("plain", fam="gps", gpt=0, needsplit=1, n=12000 if q else 24000, emb="0", npts=8, cfg="lite", cts="1,2,3,4", frs="0,1", seed=s * 1000 + 500 + k,
+        add("plain", fam="gps", gpt=0, needsplit=1, n=12000 if q else 16000, emb="0", npts=8, cfg="lite", cts="1,2,3,4", frs="0,1", seed=s * 1000 + 500 + k,
             R=[200, 1000, 400][k % 3], maxpaths=1 + k % 3, maxv=6 + 2 * (k % 4))
     if not q:
         for k in range(8):
